@@ -50,6 +50,7 @@ func FloorToPowerOfTwo(n int) int {
 	n |= n >> 4
 	n |= n >> 8
 	n |= n >> 16
+	n |= n >> 32
 
 	return n - (n >> 1)
 }
